@@ -241,6 +241,10 @@ type commitmentsVerificationState struct {
 	previousPhaseSharesMessages      []*PeerSharesMessage
 	previousPhaseCommitmentsMessages []*MemberCommitmentsMessage
 
+	// members operating when the phase started, before this member verified
+	// the shares it received; see shouldAcceptAccusationMessage
+	operatingAtPhaseStart []group.MemberIndex
+
 	phaseAccusationsMessages []*SecretSharesAccusationsMessage
 }
 
@@ -257,6 +261,7 @@ func (cvs *commitmentsVerificationState) Initiate(ctx context.Context) error {
 		cvs.previousPhaseSharesMessages,
 		cvs.previousPhaseCommitmentsMessages,
 	)
+	cvs.operatingAtPhaseStart = cvs.member.group.OperatingMemberIndexes()
 	accusationsMsg, err := cvs.member.VerifyReceivedSharesAndCommitmentsMessages(
 		cvs.previousPhaseSharesMessages,
 		cvs.previousPhaseCommitmentsMessages,
@@ -275,9 +280,10 @@ func (cvs *commitmentsVerificationState) Initiate(ctx context.Context) error {
 func (cvs *commitmentsVerificationState) Receive(msg net.Message) error {
 	switch phaseMessage := msg.Payload().(type) {
 	case *SecretSharesAccusationsMessage:
-		if cvs.member.shouldAcceptMessage(
+		if cvs.member.shouldAcceptAccusationMessage(
 			phaseMessage.SenderID(),
 			msg.SenderPublicKey(),
+			cvs.operatingAtPhaseStart,
 		) && cvs.member.sessionID == phaseMessage.sessionID {
 			cvs.phaseAccusationsMessages = append(
 				cvs.phaseAccusationsMessages,
@@ -455,6 +461,10 @@ type pointsValidationState struct {
 
 	previousPhaseMessages []*MemberPublicKeySharePointsMessage
 
+	// members operating when the phase started, before this member verified
+	// the points it received; see shouldAcceptAccusationMessage
+	operatingAtPhaseStart []group.MemberIndex
+
 	phaseMessages []*PointsAccusationsMessage
 }
 
@@ -468,6 +478,7 @@ func (pvs *pointsValidationState) ActiveBlocks() uint64 {
 
 func (pvs *pointsValidationState) Initiate(ctx context.Context) error {
 	pvs.member.MarkInactiveMembers(pvs.previousPhaseMessages)
+	pvs.operatingAtPhaseStart = pvs.member.group.OperatingMemberIndexes()
 	accusationMsg, err := pvs.member.VerifyPublicKeySharePoints(
 		pvs.previousPhaseMessages,
 	)
@@ -485,9 +496,10 @@ func (pvs *pointsValidationState) Initiate(ctx context.Context) error {
 func (pvs *pointsValidationState) Receive(msg net.Message) error {
 	switch phaseMessage := msg.Payload().(type) {
 	case *PointsAccusationsMessage:
-		if pvs.member.shouldAcceptMessage(
+		if pvs.member.shouldAcceptAccusationMessage(
 			phaseMessage.SenderID(),
 			msg.SenderPublicKey(),
+			pvs.operatingAtPhaseStart,
 		) && pvs.member.sessionID == phaseMessage.sessionID {
 			pvs.phaseMessages = append(pvs.phaseMessages, phaseMessage)
 		}
